@@ -39,7 +39,12 @@
 #include <GeographicLib/SphericalHarmonic.hpp>
 #include <GeographicLib/GravityModel.hpp>
 #include <GeographicLib/MagneticModel.hpp>
+#include <GeographicLib/MagneticCircle.hpp>
+#include <GeographicLib/GravityCircle.hpp>
 #include <GeographicLib/Utility.hpp>
+#include <GeographicLib/GeodesicLineExact.hpp>
+#include <GeographicLib/DAuxLatitude.hpp>
+#include <GeographicLib/AuxAngle.hpp>
 #include <fstream>
 #include <functional>
 #include <map>
@@ -57,6 +62,25 @@ struct Entry { V nominal; int nouts; function<void(const V&, V&)> call; };
 static map<string, Entry> E;
 #define ENTRY(name, nout, ...) E[name] = Entry{V __VA_ARGS__, nout, [](const V& a, V& o)
 #define END }
+
+
+// ---- fixtures on disk: small valid geoid raster and magnetic / gravity models (written once per process) ----
+static void mf_put_i32(string& f, int v); static void mf_put_f64(string& f, double v); static void mf_put_set(string& f, int N, int M, vt::Rng& g, double scale);
+static void mf_base(bool mag, string& m, string& c);
+static void fixtures() {
+  static bool done = false; if (done) return; done = true;
+  { ofstream f((g_dir + "/fx.pgm").c_str(), ios::binary); int w = 36, h = 19;
+    f << "P5\n# Description fixture\n# DateTime 2026-10-01 00:00:00\n# Offset -108\n# Scale 0.003\n# MaxBilinearError 0.1\n# RMSBilinearError 0.01\n# MaxCubicError 0.1\n# RMSCubicError 0.01\n"
+      << w << " " << h << "\n65535\n";
+    for (int j = 0; j < h; ++j) for (int i = 0; i < w; ++i) { unsigned v = unsigned(30000 + 400 * ((i * 7 + j * 13) % 17)); f.put(char(v >> 8)); f.put(char(v & 0xff)); } }
+  for (int mag = 0; mag < 2; ++mag) { string m, c; mf_base(mag, m, c); string name = mag ? "fxm" : "fxg", ext = mag ? ".wmm" : ".egm";
+    size_t k = m.find(mag ? "Name cm" : "Name cg"); m.replace(k, 7, "Name " + name);
+    { ofstream f((g_dir + "/" + name + ext).c_str(), ios::binary); f.write(m.data(), streamsize(m.size())); }
+    { ofstream f((g_dir + "/" + name + ext + ".cof").c_str(), ios::binary); f.write(c.data(), streamsize(c.size())); } }
+}
+static const Geoid& fxgeoid(bool cubic) { fixtures(); static Geoid gl("fx", g_dir, false, true), gc("fx", g_dir, true, true); return cubic ? gc : gl; }
+static const MagneticModel& fxmag() { fixtures(); static MagneticModel m("fxm", g_dir); return m; }
+static const GravityModel& fxgrv() { fixtures(); static GravityModel m("fxg", g_dir); return m; }
 
 static void registry() {
   // ---- constructors (no outputs: outcome only) ----
@@ -119,6 +143,61 @@ static void registry() {
   ENTRY("CassiniSoldner.Reverse", 4, {1.0e5, 2.0e5}) { CassiniSoldner(40.0, 10.0, Geodesic::WGS84()).Reverse(a[0], a[1], o[0], o[1], o[2], o[3]); } END;
   ENTRY("Intersect.Closest", 2, {0.0, 0.0, 45.0, 1.0, 2.0, 135.0}) { Intersect in(Geodesic::WGS84()); Intersect::Point p = in.Closest(a[0], a[1], a[2], a[3], a[4], a[5]); o[0] = p.first; o[1] = p.second; } END;
   ENTRY("PolygonArea.AddPoint", 2, {10.0, 20.0}) { PolygonArea p(Geodesic::WGS84()); p.AddPoint(0, 0); p.AddPoint(a[0], a[1]); p.AddPoint(0, 30); p.Compute(false, true, o[0], o[1]); } END;
+
+  // ---- second batch: line objects, polygons, intersections, data-file classes, auxiliary functions ----
+  ENTRY("GeodesicLine.ArcPosition", 8, {9.0}) { GeodesicLine l = Geodesic::WGS84().Line(40.0, 10.0, 30.0); l.ArcPosition(a[0], o[0], o[1], o[2], o[3], o[4], o[5], o[6], o[7]); } END;
+  ENTRY("GeodesicLineExact.Position", 7, {1.0e6}) { GeodesicLineExact l = GeodesicExact::WGS84().Line(40.0, 10.0, 30.0); l.Position(a[0], o[0], o[1], o[2], o[3], o[4], o[5], o[6]); } END;
+  ENTRY("Geodesic.InverseLine", 3, {40.0, 10.0, -20.0, 100.0}) { GeodesicLine l = Geodesic::WGS84().InverseLine(a[0], a[1], a[2], a[3]); l.Position(0.5 * l.Distance(), o[0], o[1], o[2]); } END;
+  ENTRY("Geodesic.DirectLine", 3, {40.0, 10.0, 30.0, 1.0e6}) { GeodesicLine l = Geodesic::WGS84().DirectLine(a[0], a[1], a[2], a[3]); l.Position(l.Distance(), o[0], o[1], o[2]); } END;
+  ENTRY("GeodesicExact.InverseLine", 3, {40.0, 10.0, -20.0, 100.0}) { GeodesicLineExact l = GeodesicExact::WGS84().InverseLine(a[0], a[1], a[2], a[3]); l.Position(0.5 * l.Distance(), o[0], o[1], o[2]); } END;
+  ENTRY("RhumbLine.Position", 3, {1.0e6}) { RhumbLine l = Rhumb::WGS84().Line(40.0, 10.0, 30.0); l.Position(a[0], o[0], o[1], o[2]); } END;
+  ENTRY("Rhumb.Line", 3, {40.0, 10.0, 30.0}) { RhumbLine l = Rhumb::WGS84().Line(a[0], a[1], a[2]); l.Position(1.0e6, o[0], o[1], o[2]); } END;
+  ENTRY("PolygonArea.AddEdge", 2, {60.0, 2.0e6}) { PolygonArea p(Geodesic::WGS84()); p.AddPoint(0, 0); p.AddEdge(a[0], a[1]); p.AddEdge(200.0, 1.5e6); p.Compute(false, true, o[0], o[1]); } END;
+  ENTRY("PolygonArea.TestPoint", 2, {10.0, 20.0}) { PolygonArea p(Geodesic::WGS84()); p.AddPoint(0, 0); p.AddPoint(0, 30); p.TestPoint(a[0], a[1], false, true, o[0], o[1]); } END;
+  ENTRY("PolygonArea.TestEdge", 2, {300.0, 2.0e6}) { PolygonArea p(Geodesic::WGS84()); p.AddPoint(0, 0); p.AddPoint(0, 30); p.TestEdge(a[0], a[1], false, true, o[0], o[1]); } END;
+  ENTRY("PolygonAreaExact.AddPoint", 2, {10.0, 20.0}) { PolygonAreaExact p(GeodesicExact::WGS84()); p.AddPoint(0, 0); p.AddPoint(a[0], a[1]); p.AddPoint(0, 30); p.Compute(false, true, o[0], o[1]); } END;
+  ENTRY("PolygonAreaRhumb.AddPoint", 2, {10.0, 20.0}) { PolygonAreaRhumb p(Rhumb::WGS84()); p.AddPoint(0, 0); p.AddPoint(a[0], a[1]); p.AddPoint(0, 30); p.Compute(false, true, o[0], o[1]); } END;
+  ENTRY("PolygonAreaRhumb.AddEdge", 2, {60.0, 2.0e6}) { PolygonAreaRhumb p(Rhumb::WGS84()); p.AddPoint(0, 0); p.AddEdge(a[0], a[1]); p.AddEdge(200.0, 1.5e6); p.Compute(false, true, o[0], o[1]); } END;
+  ENTRY("Intersect.Next", 2, {10.0, 20.0, 45.0, 135.0}) { Intersect in(Geodesic::WGS84()); Intersect::Point p = in.Next(a[0], a[1], a[2], a[3]); o[0] = p.first; o[1] = p.second; } END;
+  ENTRY("Intersect.Segment", 2, {0.0, 0.0, 10.0, 10.0, 0.0, 10.0, 10.0, 0.0}) { Intersect in(Geodesic::WGS84()); int sm; Intersect::Point p = in.Segment(a[0], a[1], a[2], a[3], a[4], a[5], a[6], a[7], sm); o[0] = p.first; o[1] = p.second; } END;
+  ENTRY("Intersect.All", 1, {0.0, 0.0, 45.0, 1.0, 2.0, 135.0, 3.0e7}) { Intersect in(Geodesic::WGS84()); vector<Intersect::Point> v = in.All(a[0], a[1], a[2], a[3], a[4], a[5], a[6]); o[0] = double(v.size()); } END;
+  ENTRY("Geoid.eval", 2, {40.0, 10.0}) { o[0] = fxgeoid(false)(a[0], a[1]); o[1] = fxgeoid(true)(a[0], a[1]); } END;
+  ENTRY("Geoid.ConvertHeight", 1, {40.0, 10.0, 100.0}) { o[0] = fxgeoid(true).ConvertHeight(a[0], a[1], a[2], Geoid::GEOIDTOELLIPSOID); } END;
+  ENTRY("Geoid.CacheArea", 1, {10.0, 20.0, 40.0, 80.0}) { Geoid g("fx", g_dir, true, false); g.CacheArea(a[0], a[1], a[2], a[3]); o[0] = g(30.0, 50.0); } END;
+  ENTRY("MagneticModel.eval", 6, {2003.5, 10.0, 20.0, 1000.0}) { fxmag()(a[0], a[1], a[2], a[3], o[0], o[1], o[2], o[3], o[4], o[5]); } END;
+  ENTRY("MagneticModel.Circle", 3, {2003.5, 10.0, 1000.0}) { MagneticCircle c = fxmag().Circle(a[0], a[1], a[2]); c(20.0, o[0], o[1], o[2]); } END;
+  ENTRY("MagneticCircle.eval", 6, {20.0}) { MagneticCircle c = fxmag().Circle(2003.5, 10.0, 1000.0); c(a[0], o[0], o[1], o[2], o[3], o[4], o[5]); } END;
+  ENTRY("MagneticModel.FieldComponents", 4, {2000.0, -300.0, -40000.0}) { MagneticModel::FieldComponents(a[0], a[1], a[2], o[0], o[1], o[2], o[3]); } END;
+  ENTRY("GravityModel.Gravity", 4, {10.0, 20.0, 1000.0}) { o[0] = fxgrv().Gravity(a[0], a[1], a[2], o[1], o[2], o[3]); } END;
+  ENTRY("GravityModel.Disturbance", 4, {10.0, 20.0, 1000.0}) { o[0] = fxgrv().Disturbance(a[0], a[1], a[2], o[1], o[2], o[3]); } END;
+  ENTRY("GravityModel.GeoidHeight", 1, {10.0, 20.0}) { o[0] = fxgrv().GeoidHeight(a[0], a[1]); } END;
+  ENTRY("GravityModel.SphericalAnomaly", 3, {10.0, 20.0, 1000.0}) { fxgrv().SphericalAnomaly(a[0], a[1], a[2], o[0], o[1], o[2]); } END;
+  ENTRY("GravityModel.W", 4, {4.0e6, 3.0e6, 4.0e6}) { o[0] = fxgrv().W(a[0], a[1], a[2], o[1], o[2], o[3]); } END;
+  ENTRY("GravityModel.T", 4, {4.0e6, 3.0e6, 4.0e6}) { o[0] = fxgrv().T(a[0], a[1], a[2], o[1], o[2], o[3]); } END;
+  ENTRY("GravityModel.Circle", 3, {10.0, 1000.0}) { GravityCircle c = fxgrv().Circle(a[0], a[1], GravityModel::ALL); c.Gravity(20.0, o[0], o[1], o[2]); } END;
+  ENTRY("GravityCircle.eval", 5, {20.0}) { GravityCircle c = fxgrv().Circle(10.0, 1000.0, GravityModel::ALL); o[0] = c.Gravity(a[0], o[1], o[2], o[3]); o[4] = c.GeoidHeight(a[0]); } END;
+  ENTRY("SphericalHarmonic.eval", 4, {4.0e6, 3.0e6, 4.0e6}) { static const double C[] = {10, 9, 8, 7, 6, 5}, S[] = {4, 3, 2}; static const vector<double> Cv(C, C + 6), Sv(S, S + 3);
+    SphericalHarmonic h(Cv, Sv, 2, 6.4e6); o[0] = h(a[0], a[1], a[2], o[1], o[2], o[3]); } END;
+  ENTRY("NormalGravity.misc", 4, {40.0}) { const NormalGravity& n = NormalGravity::WGS84(); o[0] = n.SurfaceGravity(a[0]); double fx, fy; o[1] = n.Phi(a[0] * 1e5, 2.0e6, fx, fy); o[2] = fx; o[3] = fy; } END;
+  ENTRY("NormalGravity.J2ToFlattening", 1, {A0, 3.986004418e14, 7.292115e-5, 1.08263e-3}) { o[0] = NormalGravity::J2ToFlattening(a[0], a[1], a[2], a[3]); } END;
+  ENTRY("NormalGravity.FlatteningToJ2", 1, {A0, 3.986004418e14, 7.292115e-5, F0}) { o[0] = NormalGravity::FlatteningToJ2(a[0], a[1], a[2], a[3]); } END;
+  ENTRY("UTMUPS.StandardZone", 1, {40.0, 10.0}) { o[0] = double(UTMUPS::StandardZone(a[0], a[1])); } END;
+  ENTRY("UTMUPS.Transfer", 2, {7.0e5, 4.4e6}) { int z; UTMUPS::Transfer(32, true, a[0], a[1], 33, true, o[0], o[1], z); } END;
+  ENTRY("GeoCoords.ctorUTM", 2, {5.0e5, 4.4e6}) { GeoCoords c(32, true, a[0], a[1]); o[0] = c.Latitude(); o[1] = c.Longitude(); } END;
+  ENTRY("Ellipsoid.invlats", 5, {40.0}) { const Ellipsoid& e = Ellipsoid::WGS84(); o[0] = e.InverseParametricLatitude(a[0]); o[1] = e.InverseGeocentricLatitude(a[0]); o[2] = e.InverseRectifyingLatitude(a[0]); o[3] = e.InverseAuthalicLatitude(a[0]); o[4] = e.InverseConformalLatitude(a[0]); } END;
+  ENTRY("Ellipsoid.InverseIsometricLatitude", 1, {40.0}) { o[0] = Ellipsoid::WGS84().InverseIsometricLatitude(a[0]); } END;
+  ENTRY("DAuxLatitude.DConvert", 2, {0.5, 0.7}) { DAuxLatitude d(A0, F0); AuxAngle p1(AuxAngle::radians(a[0])), p2(AuxAngle::radians(a[1])); o[0] = d.DConvert(AuxLatitude::PHI, AuxLatitude::MU, p1, p2); o[1] = d.DRectifying(p1, p2); } END;
+  ENTRY("Math.sincosde", 2, {33.0, 1.0e-12}) { Math::sincosde(a[0], a[1], o[0], o[1]); } END;
+  ENTRY("Math.misc", 5, {0.7}) { o[0] = Math::atand(a[0]); o[1] = Math::eatanhe(a[0], 0.08); o[2] = Math::AngNormalize(a[0] * 1000); double t; o[3] = Math::sum(a[0], 1.0e16, t); o[4] = t; } END;
+  ENTRY("LocalCartesian.Reset", 3, {48.0, 2.0, 100.0}) { LocalCartesian l(0, 0, 0); l.Reset(a[0], a[1], a[2]); l.Forward(48.5, 2.5, 200.0, o[0], o[1], o[2]); } END;
+  ENTRY("CassiniSoldner.Reset", 4, {40.0, 10.0}) { CassiniSoldner c(Geodesic::WGS84()); c.Reset(a[0], a[1]); c.Forward(45.0, 12.0, o[0], o[1], o[2], o[3]); } END;
+  ENTRY("AlbersEqualArea.SetScale", 1, {30.0, 1.0}) { AlbersEqualArea l(A0, F0, 40.0, 1.0); l.SetScale(a[0], a[1]); o[0] = l.CentralScale(); } END;
+  ENTRY("Geohash.Reverse", 2, {40.0, 10.0}) { string g; Geohash::Forward(a[0], a[1], 12, g); int len; Geohash::Reverse(g, o[0], o[1], len); } END;
+  ENTRY("DMS.Encode3", 1, {40.4464}) { double d, m, sec; DMS::Encode(a[0], d, m, sec); o[0] = d + m + sec; } END;
+  ENTRY("DMS.EncodePrec", 1, {40.4464}) { string s1 = DMS::Encode(a[0], DMS::SECOND, 10, DMS::AZIMUTH), s2 = DMS::Encode(a[0], DMS::DEGREE, 15, DMS::NUMBER), s3 = DMS::Encode(a[0], DMS::MINUTE, 0, DMS::LONGITUDE, ':');
+    o[0] = double(s1.size() + s2.size() + s3.size()); } END;
+  ENTRY("Utility.str", 1, {40.4464}) { o[0] = double(Utility::str(a[0], 12).size() + Utility::str(a[0], -1).size()); } END;
+  ENTRY("GeoCoords.reps", 1, {40.0, 10.0}) { GeoCoords c(a[0], a[1]); o[0] = double(c.GeoRepresentation(3).size() + c.DMSRepresentation(2).size() + c.MGRSRepresentation(2).size() + c.UTMUPSRepresentation(1).size() + c.AltMGRSRepresentation(0).size()); } END;
   // ---- functions documented to validate their arguments ----
   ENTRY("UTMUPS.Forward", 4, {40.0, 10.0}) { int z; bool n; UTMUPS::Forward(a[0], a[1], z, n, o[0], o[1], o[2], o[3]); } END;
   ENTRY("UTMUPS.Reverse", 4, {5.0e5, 4.4e6}) { UTMUPS::Reverse(32, true, a[0], a[1], o[0], o[1], o[2], o[3]); } END;
@@ -232,6 +311,71 @@ static void do_nn(const vector<string>& t) {
   vt::Rec r; r.str("e", "nn").b("bin", bin).str("fault", fault).i("param", param).str("out", res).b("usable", usable); r.emit(); fflush(stdout);
 }
 
+
+// ---- malformed model files: MagneticModel / GravityModel constructors on faulted metadata (.wmm/.egm) and coefficient (.cof) files
+static void mf_put_i32(string& f, int v) { for (int i = 0; i < 4; ++i) f.push_back(char(((unsigned) v) >> (8 * i))); }
+static void mf_put_f64(string& f, double v) { uint64_t u = vt::bits(v); for (int i = 0; i < 8; ++i) f.push_back(char(u >> (8 * i))); }
+static void mf_put_set(string& f, int N, int M, vt::Rng& g, double scale) {
+  mf_put_i32(f, N); mf_put_i32(f, M);
+  int cs = (M + 1) * (2 * N - M + 2) / 2, ss = cs - (N + 1);
+  for (int i = 0; i < cs; ++i) mf_put_f64(f, i == 0 ? 0.0 : g.uni(-1, 1) * scale);   // the degree 0 term must be zero in both formats
+  for (int i = 0; i < ss; ++i) mf_put_f64(f, g.uni(-1, 1) * scale);
+}
+static void mf_base(bool mag, string& m, string& c) {
+  string id = mag ? "CONTRMAG" : "CONTRGRV";
+  vt::Rng g(11);
+  if (mag) {
+    m = "WMMF-2\n# synthetic\nName cm\nDescription synthetic\nReleaseDate 2026-01-01\nRadius 6371200\nNumModels 1\nNumConstants 1\nEpoch 2000\nDeltaEpoch 5\n"
+        "MinTime 1990\nMaxTime 2030\nMinHeight -1000\nMaxHeight 600000\nNormalization schmidt\nType linear\nByteOrder little\nID CONTRMAG\n";
+    c = id; mf_put_set(c, 3, 3, g, 1000); mf_put_set(c, 3, 3, g, 10); mf_put_set(c, 2, 2, g, 5);
+  } else {
+    m = "EGMF-1\n# synthetic\nName cg\nDescription synthetic\nReleaseDate 2026-01-01\nModelRadius 6378136.3\nModelMass 3986004.415e8\nAngularVelocity 7292115e-11\n"
+        "ReferenceRadius 6378137\nReferenceMass 3986004.418e8\nFlattening 0.0033528106647474805\nHeightOffset -0.41\nCorrectionMultiplier 0.01\n"
+        "Normalization full\nByteOrder little\nID CONTRGRV\n";
+    c = id; mf_put_set(c, 4, 4, g, 1); mf_put_set(c, 2, 2, g, 1e-6);
+    // degree 0/1 terms of a plausible gravity field
+  }
+}
+static string mf_value(const string& cls) {
+  return cls == "nan" ? "nan" : cls == "inf" ? "inf" : cls == "neg" ? "-1" : cls == "zero" ? "0" : cls == "huge" ? "1e400" : cls == "maxint" ? "2147483647"
+       : cls == "bigint" ? "99999999999" : cls == "word" ? "abc" : cls == "two" ? "2" : cls == "frac" ? "1.5" : "";
+}
+static void do_mfile(const vector<string>& t) {
+  // mfile <kind: mag|grv> <part: meta|cof> <fault> <param>
+  bool mag = t[1] == "mag"; bool meta = t[2] == "meta"; const string& fault = t[3]; long long param = atoll(t[4].c_str());
+  string name = mag ? "cm" : "cg", ext = mag ? ".wmm" : ".egm", id = mag ? "CONTRMAG" : "CONTRGRV";
+  string m, c; mf_base(mag, m, c);
+  string& d = meta ? m : c;
+  auto lines = [&]() { vector<string> L; istringstream is(d); string l; while (getline(is, l)) L.push_back(l); return L; };
+  auto join = [&](const vector<string>& L) { d.clear(); for (auto& l : L) { d += l; d += '\n'; } };
+  if (fault == "truncate") d = d.substr(0, size_t(min<long long>(param, (long long) d.size())));
+  else if (fault == "flipbyte" && !d.empty()) d[size_t(param) % d.size()] = char(d[size_t(param) % d.size()] ^ 0x5a);
+  else if (fault == "zero" && !d.empty()) d[size_t(param) % d.size()] = 0;
+  else if (fault == "ff" && !d.empty()) d[size_t(param) % d.size()] = char(0xff);
+  else if (fault == "append") d += string(size_t(param % 50) + 1, 'x');
+  else if (fault == "dropline" && meta) { auto L = lines(); L.erase(L.begin() + long(size_t(param) % L.size())); join(L); }
+  else if (fault == "dupline" && meta) { auto L = lines(); size_t k = size_t(param) % L.size(); L.insert(L.begin() + long(k), L[k]); join(L); }
+  else if (fault.substr(0, 4) == "val-" && meta) { auto L = lines(); size_t k = size_t(param) % L.size(); size_t sp = L[k].find(' ');
+    L[k] = (sp == string::npos ? L[k] : L[k].substr(0, sp)) + " " + mf_value(fault.substr(4)); join(L); }
+  else if (fault.substr(0, 5) == "word-" && !meta) { size_t words = (d.size() - 8) / 4; string w = fault.substr(5);
+    int v = w == "m1" ? -1 : w == "m2" ? -2 : w == "max" ? 2147483647 : w == "min" ? (-2147483647 - 1) : w == "n1" ? 5 : w == "e5" ? 100000 : w == "e4" ? 30000 : 65536;
+    if (words) memcpy(&d[8 + 4 * (size_t(param) % words)], &v, 4); }
+  { ofstream f((g_dir + "/" + name + ext).c_str(), ios::binary); f.write(m.data(), streamsize(m.size())); }
+  { ofstream f((g_dir + "/" + name + ext + ".cof").c_str(), ios::binary); f.write(c.data(), streamsize(c.size())); }
+  string res; bool fin = true;
+  try {
+    if (mag) { MagneticModel mm(name, g_dir); double bx, by, bz; mm(2003.5, 10, 20, 1000, bx, by, bz);
+      MagneticCircle mc = mm.Circle(2003.5, 10, 1000); double cx, cy, cz; mc(20, cx, cy, cz); fin = std::isfinite(bx + by + bz + cx + cy + cz); }
+    else { GravityModel gm(name, g_dir); double gx, gy, gz; gm.Gravity(10, 20, 1000, gx, gy, gz); double h = gm.GeoidHeight(10, 20);
+      GravityCircle gc = gm.Circle(10, 1000, GravityModel::ALL); double cx, cy, cz; gc.Gravity(20, cx, cy, cz); fin = std::isfinite(gx + gy + gz + h + cx + cy + cz); }
+    res = "ok"; }
+  catch (const GeographicErr&) { res = "GeographicErr"; }
+  catch (const std::bad_alloc&) { res = "bad_alloc"; }
+  catch (const std::length_error&) { res = "length_error"; }
+  catch (const std::exception&) { res = "std::exception"; }
+  catch (...) { res = "unknown"; }
+  vt::Rec r; r.str("e", "mfile").str("kind", t[1]).str("part", t[2]).str("fault", fault).i("param", param).str("out", res).b("finite", fin); r.emit(); fflush(stdout);
+}
 static void on_alarm(int) { _exit(124); }
 int main(int argc, char** argv) {
   signal(SIGALRM, on_alarm);
@@ -249,7 +393,7 @@ int main(int argc, char** argv) {
     // announce the vector before executing it, so that a crash is attributable
     fprintf(stderr, "@ %lld %s\n", n, line.c_str()); fflush(stderr);
     alarm(wd);   // watchdog: a vector that does not return within wd seconds is a hang (exit code 124), attributed to this vector
-    if (t[0] == "call") do_call(t); else if (t[0] == "str") do_str(t); else if (t[0] == "nn") do_nn(t);
+    if (t[0] == "call") do_call(t); else if (t[0] == "str") do_str(t); else if (t[0] == "nn") do_nn(t); else if (t[0] == "mfile") do_mfile(t);
   }
   return 0;
 }
